@@ -220,12 +220,26 @@ def build(case, drop_uses=frozenset()):
                 sink.append((pad + "};", None))
                 sink.append((f'{pad}{s["fn"]}({", ".join(str(t) for t in s["tags"])});', None))
             elif k == "generic":
-                sink.append((f'{pad}{s["fn"]} :: (comptime {s["param"]}: i64) {{', None))
-                emit(s["body"], ind + 1, sink)
-                sink.append((pad + "};", None))
+                if hoist_generics() and not case.get("force_local_generics"):
+                    # listed open finding: a generic function defined as a *local* crashes the compiler;
+                    # the function is emitted as a global instead (same visibility rules: own parameter + globals)
+                    g = []
+                    g.append((f'{s["fn"]} :: (comptime {s["param"]}: i64) {{', None))
+                    emit(s["body"], 1, g)
+                    g.append(("};", None))
+                    fns.append(g)
+                else:
+                    sink.append((f'{pad}{s["fn"]} :: (comptime {s["param"]}: i64) {{', None))
+                    emit(s["body"], ind + 1, sink)
+                    sink.append((pad + "};", None))
                 sink.append((f'{pad}{s["fn"]}({s["tag"]});', None))
     sink = []
     emit(case["body"], 1, sink)
+    for g in fns:
+        for text, uid in g:
+            lines.append(text)
+            if uid is not None:
+                use_line[uid] = len(lines)
     lines.append("main :: () {")
     for text, uid in sink:
         lines.append(text)
@@ -233,6 +247,16 @@ def build(case, drop_uses=frozenset()):
             use_line[uid] = len(lines)
     lines.append("}")
     return "\n".join(lines) + "\n", use_line
+
+
+LOCAL_GENERIC_KEY = "crash:crates/codegen/src/compiler/functions.rs:assertion failed: self.tys.try_naive(loc.wrap(), self.world_bodies).is_ok()"
+_hoist = []
+
+
+def hoist_generics():
+    if not _hoist:
+        _hoist.append(any(f["key"] == LOCAL_GENERIC_KEY and f.get("status") == "open" for f in core.load_findings("C05")))
+    return _hoist[0]
 
 
 UNDEF = re.compile(r"error: undefined reference to `(\w+)`\s*\n\s*--> at main\.capy:(\d+):(\d+)")
